@@ -121,6 +121,26 @@ def sharing_templates(rng, gen, n):
     return out
 
 
+def lazy_builtin_templates(rng, gen):
+    """Library functions whose specification (std.jsonnet) does not look at the elements: the traced
+    element is never needed by the result, so it must not run (expected count 0)."""
+    out = []
+    e = gen.gen(rng.choice(['num', 'str', 'arr', 'obj']), {}, 2, False)
+    T = G.to_jsonnet(('std', 'trace', [('str', 'ONCE'), e]))
+    for src in [
+        'std.length(std.sort([%s]))', 'std.length(std.sort([]))+std.length([%s])', 'std.length(std.map(function(x) x, [%s, 1]))',
+        'std.length(std.makeArray(2, function(i) %s))', 'std.length(std.reverse([%s, 1]))', 'std.length([%s, 1, 2][0:2])',
+        'std.length(std.repeat([%s], 2))', 'std.length([%s] + [1])', 'std.objectFields({a: %s})', 'std.length({a: %s, b:: 1})',
+        'std.length(std.filter(function(x) true, [%s]))', 'std.foldl(function(a, x) a + 1, [%s, 2], 0)',
+        'std.length(std.mapWithIndex(function(i, x) x, [%s]))', 'std.objectHas({a: %s}, "a")', 'std.length(std.set([]))+std.length([%s])',
+        'std.isArray([%s])', 'std.type({a: %s})', 'std.length(std.flatMap(function(x) [x, x], [%s]))', 'std.length(std.slice([%s, 1], 0, 1, 1))',
+        'std.length(std.objectValues({a: %s}))', 'std.length(std.prune([1, [%s][1:]]))', 'local a = [%s]; std.length(a + a)',
+        'std.length(std.mapWithKey(function(k, v) v, {a: %s}))', '[%s, 5][1]', '{a: %s, b: 5}.b', 'std.get({a: %s, b: 5}, "b")',
+    ]:
+        out.append((src % T, 0, 'lazy builtin'))
+    return out
+
+
 def run(rep):
     rep.rule = ("generated core programs; for each, rewrite sites chosen uniformly among all expression nodes x rewrite "
                 "kinds (name with local, identity function, one-element array, one-field object when the node does not "
@@ -185,6 +205,21 @@ def run(rep):
     if rep.tier != 'quick':
         for _ in range(20):
             tcases += sharing_templates(rng, gen, 100000)
+    lazy = []
+    for _ in range(3 if rep.tier == 'quick' else 100):
+        lazy += lazy_builtin_templates(rng, gen)
+    louts = vlib.impl([vlib.eval_line(src, max_stack=500, traces=1) for src, _, _ in lazy])
+    for (src, expect, label), a in zip(lazy, louts):
+        rep.count(src, True)
+        rep.bump('lazy-builtin-template')
+        if a.startswith('panic') or a.startswith('crash'):
+            rep.violation('c04:' + src, 'evaluation crashed: ' + a[:200], {'src': src, 'impl': a})
+            continue
+        tr = a.rsplit(' T', 1)[1].split(',') if ' T' in a else []
+        cnt = sum(1 for t in tr if t == vlib.hx('ONCE'))
+        if cnt != 0:
+            rep.violation('c04lazy:' + src, 'an element the result does not depend on was evaluated (%d times)' % cnt,
+                          {'src': src, 'impl': a, 'expected_count': 0})
     outs = vlib.impl([vlib.eval_line(G.to_jsonnet(p), max_stack=500, traces=1) for p, _, _ in tcases])
     # the same templates through the model: value and std.trace sequence
     _, tio, tmo = C.run_pair([p for p, _, _ in tcases], max_stack=500, fuel=6000)
